@@ -438,6 +438,7 @@ pub fn run_plan(plan: Plan) -> Result<Report, String> {
                     "family": sc.family,
                     "source": sc.source,
                     "io": sc.io,
+                    "expect": sc.expect,
                     "config": {"workers": cfg.workers, "quantum": cfg.quantum,
                                "request_early": cfg.request_early, "defer_effects": cfg.defer_effects},
                     "actions": f.actions,
@@ -520,6 +521,7 @@ pub fn replay(
         source: replay["source"].as_str().ok_or("replay has no source")?.to_string(),
         confluent: true,
         io: replay["io"].as_bool().unwrap_or(false),
+        expect: replay["expect"].as_str().map(|s| s.to_string()),
     };
     let c = &replay["config"];
     let cfg = Config {
